@@ -339,7 +339,14 @@ def props_shape(mod):
 
     refusal = []
     needed_var = None
+    main_args = []
+    bound = set()
     for st in stmts[2:]:
+        if isinstance(st, ast.Assign) and len(st.targets) == 1 and _is_name(st.targets[0]):
+            # a variable holding something read from the old dataset is bound exactly once
+            if st.targets[0].id in bound:
+                raise ExtractError("update_props line %d: %s is assigned a second time" % (st.lineno, st.targets[0].id))
+            bound.add(st.targets[0].id)
         if (isinstance(st, ast.Assign) and len(st.targets) == 1 and _is_name(st.targets[0])
                 and isinstance(st.value, ast.List) and st.value.elts
                 and all(isinstance(e, ast.Tuple) and len(e.elts) == 2 and isinstance(e.elts[0], ast.Constant)
@@ -384,10 +391,19 @@ def props_shape(mod):
                 kw = {k.arg: k.value for k in v.keywords}
                 ok = (len(v.args) == 2 and _is_name(v.args[0], "hfile") and _is_name(v.args[1], pname)
                       and set(kw) == {"dtype", "data", "definition", "unit"}
-                      and dtype_var is not None and _is_name(kw["dtype"], dtype_var[0]) and dtype_var[1] == "value"
-                      and _is_name(kw["data"]) and fields.get(kw["data"].id) == "value"
-                      and _is_name(kw["definition"]) and attrs.get(kw["definition"].id) == "definition"
-                      and _is_name(kw["unit"]) and attrs.get(kw["unit"].id) == "unit")
+                      and all(_is_name(x) for x in kw.values()) and main_var is None)
+                if ok:
+                    # every argument is a variable bound once, to what was read from the old dataset, unmodified
+                    for k in v.keywords:
+                        nm = k.value.id
+                        if dtype_var is not None and nm == dtype_var[0]:
+                            main_args.append("(%s, .fieldDtype %s)" % (lean_str(k.arg), lean_str(dtype_var[1])))
+                        elif nm in fields:
+                            main_args.append("(%s, .field %s)" % (lean_str(k.arg), lean_str(fields[nm])))
+                        elif nm in attrs:
+                            main_args.append("(%s, .attr %s)" % (lean_str(k.arg), lean_str(attrs[nm])))
+                        else:
+                            ok = False
                 if not ok:
                     raise ExtractError("update_props line %d: main create_property call is not modelled: %s"
                                        % (st.lineno, ast.unparse(st)))
@@ -400,13 +416,180 @@ def props_shape(mod):
             continue
         if isinstance(st, ast.If):
             if main_var is None:
-                raise ExtractError("update_props line %d: extras before the main property" % st.lineno)
+                raise ExtractError("update_props line %d: `if` before the main property is created (what was read "
+                                   "from the old dataset must reach create_property unchanged)" % st.lineno)
             rule(st, False)
             continue
         raise ExtractError("update_props line %d: %s is not modelled" % (st.lineno, ast.unparse(st)))
     if refusal and "refuse" not in ops:
         raise ExtractError("update_props: the list of needed names is never tested")
-    return find, recheck, ops, rules, refusal
+    return find, recheck, ops, rules, refusal, main_args
+
+
+# ------------------------------------------------------------------------------------------------
+# create_property / has_valid_file_id / get_file_version / file_upgrade
+
+CREATE_PARAMS = ["hfile", "name", "dtype", "data", "definition", "unit"]
+
+
+def create_shape(mod):
+    """`create_property`: parameters (+ which default to None), how the parameters reach `create_dataset`, and the
+    attributes written on the new dataset in source order (attribute, where the value comes from, condition)"""
+    fn = _func(mod.body, "create_property")
+    a = fn.args
+    if a.vararg or a.kwarg or a.kwonlyargs or a.posonlyargs:
+        raise ExtractError("create_property: signature is not modelled")
+    names = [x.arg for x in a.args]
+    if names != CREATE_PARAMS:
+        raise ExtractError("create_property: parameters %s, expected %s" % (names, CREATE_PARAMS))
+    ndef = len(a.defaults)
+    params = []
+    for i, n in enumerate(names):
+        j = i - (len(names) - ndef)
+        if j >= 0:
+            d = a.defaults[j]
+            if not (isinstance(d, ast.Constant) and d.value is None):
+                raise ExtractError("create_property: default of %s is not None" % n)
+        params.append("(%s, %s)" % (lean_str(n), lean_bool(j >= 0)))
+    body = _nodoc(fn.body)
+    if not body:
+        raise ExtractError("create_property: empty body")
+    st = body[0]
+    dsvar = None
+    dataset = []
+    if (isinstance(st, ast.Assign) and len(st.targets) == 1 and _is_name(st.targets[0])
+            and isinstance(st.value, ast.Call) and ast.unparse(st.value.func) == "hfile.create_dataset"):
+        dsvar = st.targets[0].id
+        c = st.value
+        if not (len(c.args) == 1 and _is_name(c.args[0])):
+            raise ExtractError("create_property line %d: create_dataset name argument is not a parameter" % st.lineno)
+        dataset.append(("name", c.args[0].id))
+        for k in c.keywords:
+            if k.arg == "chunks":
+                if not (isinstance(k.value, ast.Constant) and k.value.value is True):
+                    raise ExtractError("create_property line %d: chunks=%s" % (st.lineno, ast.unparse(k.value)))
+                continue
+            if k.arg is None or not _is_name(k.value):
+                raise ExtractError("create_property line %d: create_dataset argument %s is not a parameter passed "
+                                   "on as it is" % (st.lineno, ast.unparse(k)))
+            dataset.append((k.arg, k.value.id))
+        for _, src in dataset:
+            if src not in names:
+                raise ExtractError("create_property line %d: %s is not a parameter" % (st.lineno, src))
+    else:
+        raise ExtractError("create_property line %d: expected `prop = hfile.create_dataset(...)` first (the "
+                           "parameters must reach it unchanged)" % st.lineno)
+
+    def source(v, lineno):
+        sv = ast.unparse(v).replace('"', "'")
+        if sv == "name.split('/')[-1]":
+            return ".lastComponent"
+        if sv == "nix.util.create_id()":
+            return ".freshId"
+        if sv == "nix.util.time_to_str(nix.util.now_int())":
+            return ".now"
+        if _is_name(v) and v.id in names:
+            return "(.param %s)" % lean_str(v.id)
+        raise ExtractError("create_property line %d: attribute value %s is not modelled" % (lineno, sv))
+
+    def attr_write(x):
+        if (isinstance(x, ast.Assign) and len(x.targets) == 1 and isinstance(x.targets[0], ast.Subscript)
+                and ast.unparse(x.targets[0].value) == "%s.attrs" % dsvar
+                and isinstance(x.targets[0].slice, ast.Constant) and isinstance(x.targets[0].slice.value, str)):
+            return x.targets[0].slice.value, source(x.value, x.lineno)
+        return None
+    writes = []
+    returned = False
+    for st in body[1:]:
+        if returned:
+            raise ExtractError("create_property line %d: statement after return" % st.lineno)
+        w = attr_write(st)
+        if w is not None:
+            writes.append("⟨%s, %s, .always⟩" % (lean_str(w[0]), w[1]))
+            continue
+        if (isinstance(st, ast.If) and _is_name(st.test) and st.test.id in names and not st.orelse
+                and len(st.body) == 1 and attr_write(st.body[0]) is not None):
+            w = attr_write(st.body[0])
+            writes.append("⟨%s, %s, (.truthy %s)⟩" % (lean_str(w[0]), w[1], lean_str(st.test.id)))
+            continue
+        if isinstance(st, ast.Return) and _is_name(st.value, dsvar):
+            returned = True
+            continue
+        raise ExtractError("create_property line %d: %s is not modelled" % (st.lineno, ast.unparse(st)))
+    if not returned:
+        raise ExtractError("create_property does not return the new dataset")
+    return params, ["(%s, %s)" % (lean_str(a_), lean_str(b_)) for a_, b_ in dataset], writes
+
+
+def valid_id_shape(mod):
+    """`has_valid_file_id`: the test on the header's `id` attribute under which it answers True"""
+    fn = _func(mod.body, "has_valid_file_id")
+    body = _nodoc(fn.body)
+    ok = (len(body) == 2 and isinstance(body[0], ast.With) and len(body[0].items) == 1
+          and ast.unparse(body[0].items[0].context_expr).replace('"', "'") == "h5py.File(fname, mode='r')"
+          and _is_name(body[0].items[0].optional_vars, "hfile")
+          and isinstance(body[1], ast.Return) and isinstance(body[1].value, ast.Constant) and body[1].value.value is False)
+    if ok:
+        w = body[0].body
+        ok = (len(w) == 2 and ast.unparse(w[0]).replace('"', "'") == "fileid = hfile.attrs.get('id')"
+              and isinstance(w[1], ast.If) and not w[1].orelse and len(w[1].body) == 1
+              and isinstance(w[1].body[0], ast.Return) and isinstance(w[1].body[0].value, ast.Constant)
+              and w[1].body[0].value.value is True)
+    if not ok:
+        raise ExtractError("has_valid_file_id: expected `fileid = hfile.attrs.get('id')`, `if <test>: return True`, "
+                           "`return False`")
+
+    def atom(n):
+        sv = ast.unparse(n)
+        if sv == "fileid":
+            return "truthy"
+        if sv == "nix.util.is_uuid(fileid)":
+            return "is_uuid"
+        raise ExtractError("has_valid_file_id line %d: test %s is not modelled" % (n.lineno, sv))
+    return bexp(body[0].body[1].test, atom)
+
+
+def version_shape(mod):
+    fn = _func(mod.body, "get_file_version")
+    body = _nodoc(fn.body)
+    if not (len(body) == 1 and isinstance(body[0], ast.With) and len(body[0].body) == 1
+            and ast.unparse(body[0].items[0].context_expr).replace('"', "'") == "h5py.File(fname, mode='r')"
+            and ast.unparse(body[0].body[0]).replace('"', "'") == "return tuple(hfile.attrs['version'])"):
+        raise ExtractError("get_file_version does not just return tuple(hfile.attrs['version'])")
+    return True
+
+
+def entry_shape(mod):
+    """`file_upgrade`: what runs inside the `try`, and what an exception / the normal end return"""
+    fn = _func(mod.body, "file_upgrade")
+    body = _nodoc(fn.body)
+    if not (len(body) == 2 and isinstance(body[0], ast.Try) and isinstance(body[1], ast.Return)
+            and isinstance(body[1].value, ast.Constant) and body[1].value.value is True):
+        raise ExtractError("file_upgrade: expected `try: ... except ...: return False` followed by `return True`")
+    tr = body[0]
+    if tr.orelse or tr.finalbody or len(tr.handlers) != 1 or ast.unparse(tr.handlers[0].type or ast.Constant(None)) != "Exception":
+        raise ExtractError("file_upgrade: expected exactly one handler `except Exception`")
+    hb = tr.handlers[0].body
+    if not (isinstance(hb[-1], ast.Return) and isinstance(hb[-1].value, ast.Constant) and hb[-1].value.value is False
+            and all(isinstance(x, ast.Expr) and _call_name(x.value) == "print" for x in hb[:-1])):
+        raise ExtractError("file_upgrade: the handler does not just report and return False")
+    ops = []
+    tasks_var = None
+    for st in tr.body:
+        if (isinstance(st, ast.Assign) and _call_name(st.value) == "collect_tasks"
+                and ast.unparse(st.value) == "collect_tasks(fname)" and isinstance(st.targets[0], ast.Tuple)
+                and all(_is_name(e) for e in st.targets[0].elts)):
+            tasks_var = st.targets[0].elts[0].id
+            ops.append("collect")
+        elif (isinstance(st, ast.If) and ast.unparse(st.test) == "not quiet" and not st.orelse
+              and all(isinstance(x, ast.Expr) and _call_name(x.value) == "print_tasks" for x in st.body)):
+            continue
+        elif (isinstance(st, ast.Expr) and _call_name(st.value) == "process_tasks" and len(st.value.args) == 2
+              and _is_name(st.value.args[0], "fname") and _is_name(st.value.args[1], tasks_var)):
+            ops.append("process")
+        else:
+            raise ExtractError("file_upgrade line %d: %s is not modelled" % (st.lineno, ast.unparse(st)))
+    return ops
 
 
 # ------------------------------------------------------------------------------------------------
@@ -574,12 +757,15 @@ def shape(repo):
     path = os.path.join(repo, SOURCE)
     mod = ast.parse(open(path, encoding="utf-8").read())
     op, order = collect_shape(mod)
-    pfind, precheck, pops, rules, refusal = props_shape(mod)
+    pfind, precheck, pops, rules, refusal, main_args = props_shape(mod)
+    cparams, cdataset, cwrites = create_shape(mod)
     dfind, dskip, dops = dims_shape(mod)
     outer, inner = id_shape(mod)
     return {"op": op, "order": order, "process": process_shape(mod), "id_outer": outer, "id_recheck": inner,
             "bump": bump_shape(mod), "refusal": refusal, "pfind": pfind, "precheck": precheck, "pops": pops, "rules": rules,
-            "dfind": dfind, "dskip": dskip, "dops": dops, "readers": readers_shape(repo)}
+            "dfind": dfind, "dskip": dskip, "dops": dops, "readers": readers_shape(repo),
+            "main_args": main_args, "cparams": cparams, "cdataset": cdataset, "cwrites": cwrites,
+            "id_valid": valid_id_shape(mod), "version_raw": version_shape(mod), "entry": entry_shape(mod)}
 
 
 TASKS = {"add_file_id": ".fileId", "update_property_values": ".props", "update_alias_range_dimension": ".aliasDims",
@@ -626,11 +812,29 @@ def render(sh):
         "/-- `update_alias_dims`: writes of one conversion in source order -/\n"
         "def dimOps : List String := [%s]\n\n"
         "%s\n"
+        "/-- `update_props`: keyword arguments of the main `create_property` call and what each was read from "
+        "(a variable bound once, passed on unmodified) -/\n"
+        "def mainArgs : List (String × OldSrc) := [%s]\n"
+        "/-- `create_property`: parameters in order; `true` = defaults to None -/\n"
+        "def createParams : List (String × Bool) := [%s]\n"
+        "/-- `create_property`: arguments of `hfile.create_dataset` and the parameter handed on unchanged for each -/\n"
+        "def createDataset : List (String × String) := [%s]\n"
+        "/-- `create_property`: attributes written on the new dataset in source order -/\n"
+        "def createAttrs : List AttrWrite := [%s]\n"
+        "/-- `has_valid_file_id`: answers True when this holds of the header's `id` attribute -/\n"
+        "def idValid : BExp := %s\n"
+        "/-- `get_file_version` returns the header's `version` attribute as a tuple and nothing else -/\n"
+        "def versionIsHeaderAttr : Bool := %s\n"
+        "/-- `file_upgrade`: what runs inside `try` (an exception makes it return False, the normal end True) -/\n"
+        "def entryOps : List String := [%s]\n\n"
         "end Nix.Upgrade.Gen\n" % (
             sh["op"], order, sh["process"], lean_bool(sh["id_outer"]), lean_bool(sh["id_recheck"]),
             lean_bool(sh["bump"]), sh["pfind"], sh["precheck"], ", ".join(lean_str(o) for o in sh["pops"]),
             ",\n  ".join(sh["rules"]), ", ".join(sh["refusal"]), sh["dfind"], sh["dskip"], ", ".join(lean_str(o) for o in sh["dops"]),
-            render_readers(*sh["readers"])))
+            render_readers(*sh["readers"]),
+            ", ".join(sh["main_args"]), ", ".join(sh["cparams"]), ", ".join(sh["cdataset"]),
+            ",\n  ".join(sh["cwrites"]), sh["id_valid"], lean_bool(sh["version_raw"]),
+            ", ".join(lean_str(o) for o in sh["entry"])))
 
 
 def extract(repo):
